@@ -1,5 +1,6 @@
 import Cstl.Base.Driver
 import Cstl.Tree.Model
+import Cstl.Tree.History
 /-
 Driver for the tree area: a binary tree `bt`, a red-black tree `rb` (each with
 its own element pool, ids 1..) and a map `map`.  Same line protocol and state
@@ -9,6 +10,7 @@ dump as harness/tree.c.  Only the container an operation addresses is dumped.
   bt|rb ins <id> <key>                 insert(e, NULL)   (id 0 = lowest id not in the tree)
   bt|rb insh <id> <key>                find(key, &par); insert(e, par)
   bt|rb insat <id> <key> <hint>        insert(e, hint)  (hint must be in the tree)
+  bt|rb insatr <key> <rank>            insert(lowest free id, hint = in-order element number rank mod size)
   bt|rb find <key>                     -> id p=<par>
   bt|rb erase <key>                    -> id
   bt|rb fe fwd|rev <k>                 foreach, visit returns 7 on its k-th call
@@ -98,53 +100,62 @@ def tstep (s : TState) (ws : List String) : TState × String :=
   | "map" :: rest =>
     let fin (m : MapSt) (r : String) (full : Bool := false) : TState × String :=
       ({ s with mp := m }, r ++ " | " ++ dumpTree 2 (s.hash && !full) m.t m.size ++ s!" live={m.t.size}")
+    -- every map operation is one `mapStep` (History.lean): the step function of `run_refines`
+    let run (op : MOp) : TState × String :=
+      match mapStep s.mp op with
+      | none => segv
+      | some (m, o) =>
+        match o with
+        | .ins r it log => fin m s!"r={r} it={iterS it} log={logS log}"
+        | .find it => fin m s!"it={iterS it}"
+        | .erase r it log => fin m s!"r={r} it={iterS it} log={logS log}"
+        | .eraseIt it log => fin m s!"it={iterS it} log={logS log}"
+        | .clear log => fin m s!"log={logS log}"
     match rest with
     | ["ins", ko, v, a] =>
       match ko.toNat?, v.toNat?, a.toNat? with
       | some ko, some v, some a =>
-        if ko ≥ 64 ∨ v ≥ 8 ∨ a > 1 then bad else
-        match mapInsert s.mp (Int.ofNat (ko / 2)) ko v (a == 1) with
-        | none => segv
-        | some (m, r, it, log) => fin m s!"r={r} it={iterS it} log={logS log}"
+        if ko ≥ 64 ∨ v ≥ 8 ∨ a > 1 then bad else run (.ins (Int.ofNat (ko / 2)) ko v (a == 1))
       | _, _, _ => bad
     | ["find", k] =>
       match parseInt? k with
-      | some k => fin s.mp s!"it={iterS (mapFind s.mp k)}"
+      | some k => run (.find k)
       | none => bad
     | ["erase", k] =>
       match parseInt? k with
-      | some k =>
-        match mapErase s.mp k with
-        | none => segv
-        | some (m, r, it, log) => fin m s!"r={r} it={iterS it} log={logS log}"
+      | some k => run (.erase k)
       | none => bad
     | ["eraseit", k] =>
       match parseInt? k with
-      | some k =>
-        match (find k s.mp.t).1 with
-        | none => fin s.mp "it=end log=[]"
-        | some e =>
-          match mapEraseNode s.mp e with
-          | none => segv
-          | some (m, log) => fin m s!"it={iterS (iterOf e)} log={logS log}"
+      | some k => run (.eraseIt k)
       | none => bad
-    | ["clear"] =>
-      let (m, log) := mapClear s.mp true
-      fin m s!"log={logS log}"
-    | ["clear0"] =>
-      let (m, log) := mapClear s.mp false
-      fin m s!"log={logS log}"
+    | ["clear"] => run (.clear true)
+    | ["clear0"] => run (.clear false)
     | ["show"] => fin s.mp "ok" true
     | _ => bad
   | c :: rest =>
     if c ≠ "bt" ∧ c ≠ "rb" then bad else
     let isRb := c = "rb"
-    let t := if isRb then s.rb else s.bt
-    let n := if isRb then s.rbn else s.btn
+    let ts : TS := if isRb then { t := s.rb, size := s.rbn } else { t := s.bt, size := s.btn }
+    let t := ts.t
+    let n := ts.size
     let kind := if isRb then 1 else 0
     let fin (t' : Tree) (n' : Nat) (r : String) (full : Bool := false) : TState × String :=
       (if isRb then { s with rb := t', rbn := n' } else { s with bt := t', btn := n' },
        r ++ " | " ++ dumpTree kind (s.hash && !full) t' n')
+    -- the standard operations are one `btStep` / `rbStep` (History.lean): the step
+    -- functions of `bt_run_refines`, `rb_run_refines`, `run_inv`
+    let run (op : Op) (extra : String := "") : TState × String :=
+      match (if isRb then rbStep ts op else btStep ts op) with
+      | .error .badOp => bad
+      | .error .segv => segv
+      | .ok (ts', o) =>
+        match o with
+        | .done => fin ts'.t ts'.size ("ok" ++ extra)
+        | .found r => fin ts'.t ts'.size (s!"{(r.map (·.id)).getD 0}" ++ extra)
+        | .erased r => fin ts'.t ts'.size s!"{(r.map (·.id)).getD 0}"
+        | .visited r evs => fin ts'.t ts'.size s!"{r} {evsS evs}"
+        | .cleared cbs => fin ts'.t ts'.size (showList (cbs.map (·.id)) ++ " p=1")
     let fresh (id : Nat) : Bool := id ≥ 1 ∧ id ≤ maxId ∧ !(t.ids.contains id)
     -- element id 0 in an insert: the lowest id that is not in the tree
     let auto (id : Nat) : Nat := if id = 0 then lowestFree t else id
@@ -153,38 +164,14 @@ def tstep (s : TState) (ws : List String) : TState × String :=
       match id.toNat?, parseInt? k with
       | some id, some k =>
         let id := auto id
-        if !fresh id then bad else
-        let x : Elem := { key := k, id := id }
-        if isRb then
-          match rbInsert x t with
-          | none => segv
-          | some t' => fin t' (n + 1) "ok"
-        else fin (btIns x t) (n + 1) "ok"
+        if !fresh id then bad else run (.ins { key := k, id := id })
       | _, _ => bad
     | ["insh", id, k] =>
       match id.toNat?, parseInt? k with
       | some id, some k =>
         let id := auto id
         if !fresh id then bad else
-        let x : Elem := { key := k, id := id }
-        let par := (find k t).2
-        let hs := s!"ok h={(par.map (·.id)).getD 0}"
-        match par with
-        | none =>
-          if isRb then
-            match rbInsert x t with
-            | none => segv
-            | some t' => fin t' (n + 1) hs
-          else fin (btIns x t) (n + 1) hs
-        | some p =>
-          if isRb then
-            match rbInsertAt p.id x t with
-            | some (some t') => fin t' (n + 1) hs
-            | _ => segv
-          else
-            match btInsAt p.id x t with
-            | some t' => fin t' (n + 1) hs
-            | none => segv
+        run (.insHint { key := k, id := id }) s!" h={(((find k t).2).map (·.id)).getD 0}"
       | _, _ => bad
     | ["insat", id, k, h] =>
       match id.toNat?, parseInt? k, h.toNat? with
@@ -201,33 +188,41 @@ def tstep (s : TState) (ws : List String) : TState × String :=
           | some t' => fin t' (n + 1) "ok"
           | none => segv
       | _, _, _ => bad
+    | ["insatr", k, r] =>
+      -- arbitrary hint, named by its in-order rank (mod size)
+      match parseInt? k, r.toNat? with
+      | some k, some r =>
+        let io := t.inorder
+        if io.isEmpty then bad else
+        match io[r % io.length]? with
+        | none => bad
+        | some hint =>
+          let x : Elem := { key := k, id := lowestFree t }
+          if !fresh x.id then bad else
+          if isRb then
+            match rbInsertAt hint.id x t with
+            | some (some t') => fin t' (n + 1) s!"ok h={hint.id}"
+            | _ => segv
+          else
+            match btInsAt hint.id x t with
+            | some t' => fin t' (n + 1) s!"ok h={hint.id}"
+            | none => segv
+      | _, _ => bad
     | ["find", k] =>
       match parseInt? k with
-      | some k =>
-        let (f, p) := find k t
-        fin t n s!"{(f.map (·.id)).getD 0} p={(p.map (·.id)).getD 0}"
+      | some k => run (.find k) s!" p={(((find k t).2).map (·.id)).getD 0}"
       | none => bad
     | ["erase", k] =>
       match parseInt? k with
-      | some k =>
-        if isRb then
-          match rbErase k t with
-          | none => segv
-          | some (t', r) => fin t' (if r.isSome then n - 1 else n) s!"{(r.map (·.id)).getD 0}"
-        else
-          let (t', r) := btErase k t
-          fin t' (if r.isSome then n - 1 else n) s!"{(r.map (·.id)).getD 0}"
+      | some k => run (.erase k)
       | none => bad
     | ["fe", d, k] =>
       match parseInt? k with
       | some k =>
         if d ≠ "fwd" ∧ d ≠ "rev" then bad else
-        let (r, evs) := foreach (d = "fwd") (fun i _ _ => if (i : Int) = k then 7 else 0) t
-        fin t n s!"{r} {evsS evs}"
+        run (.foreach (d = "fwd") (fun i _ _ => if (i : Int) = k then 7 else 0))
       | none => bad
-    | ["clear"] =>
-      let cbs := clearOrder t
-      fin .nil 0 (showList (cbs.map (·.id)) ++ " p=1")
+    | ["clear"] => run .clear
     | ["show"] => fin t n "ok" true
     | _ => bad
   | _ => bad
